@@ -282,7 +282,15 @@ def run_check(prop, tier, seed, replay=None):
                 cmd = [os.path.join(BUILD, "harness"), st, "-seed", str(seed), "-tier", tier, "-out", outdir]
                 if replay:
                     cmd += ["-replay", replay]
-                rc, out = sh(["timeout", "3000"] + cmd, cwd=outdir, timeout=3100)
+                hto = 900 if tier == "quick" else 3000
+                rc, out = sh(["timeout", str(hto)] + cmd, cwd=outdir, timeout=hto + 100)
+                if rc == 124:
+                    # on the unchanged tree every stream terminates well within the limit: a stream that no longer
+                    # terminates against this tree is reported, not swallowed as an internal error
+                    p = write_replay(prop, "stream_timeout_" + st, dict(property=prop, kind="stream-timeout", stream=st, seed=seed, tier=tier,
+                                     note="the correspondence stream did not terminate within %d s against this tree" % hto, tail=out[-2000:]))
+                    violations.append((p, "no-failing-input-found"))
+                    continue
                 if rc != 0:
                     raise Internal("harness %s failed (rc=%d):\n%s" % (st, rc, out[-3000:]))
                 rep = json.load(open(os.path.join(outdir, "report.json")))
